@@ -1,6 +1,8 @@
 import Slu.Model.Mem
 import SluProofs.Lemmas.Mem
 import SluProofs.Lemmas.MemStore
+import SluProofs.Lemmas.GrowList
+import SluProofs.Lemmas.MemInit
 /-
 C07 — How factor storage is obtained never changes the answer.
 
@@ -77,5 +79,41 @@ theorem expand_preserves_contents_malloc {β : Type} (fx : Fixes) (w : Words) (f
       rbyte (moveStore w t len s (expand fx w fail prev t keep s).1 σ) (expand fx w fail prev t keep s).1 t' j
         = rbyte σ s t' j) :=
   sys_preserves fx w fail prev t keep s hinv nl h σ len
+
+/-- **C07 `mem_refines_growlist`**: run any sequence of client operations (byte writes below the current
+capacity, `LUMemXpand` with any `next`) against the allocator — in a workspace satisfying the invariant,
+or under library allocation with any pattern of allocation failures.  If the run is carried through
+(no refused expansion), every byte that the abstract growable lists know (written, and not beyond
+`next` at a later growth) is inside the concrete array and has the same value there. -/
+theorem mem_refines_growlist {β : Type} (w : Words) (hw : w.Ok) (hld : w.liw ≤ w.dw) (fail : Nat → Bool)
+    (ops : List (COp β)) (a : Abs β) (x y : St × Store β) (hg : GoodInv w x.1) (hs : Sim w a x.1 x.2)
+    (h : crun w fail x ops = some y) : GoodInv w y.1 ∧ Sim w (arun w a ops) y.1 y.2 :=
+  refine_run w hw hld fail ops a x y hg hs h
+
+/-- **C07 `storage_independence`**: two storage configurations — different workspace lengths, alignments,
+initial lengths (fill estimates), library allocation with different failures, in any combination — that
+both carry the same client operation sequence through agree on every byte the abstract lists define:
+what the factor routines can read back does not depend on how the storage was obtained. -/
+theorem storage_independence {β : Type} (w : Words) (hw : w.Ok) (hld : w.liw ≤ w.dw) (fail₁ fail₂ : Nat → Bool)
+    (ops : List (COp β)) (x₁ x₂ y₁ y₂ : St × Store β)
+    (hg₁ : GoodInv w x₁.1) (hg₂ : GoodInv w x₂.1)
+    (h₁ : crun w fail₁ x₁ ops = some y₁) (h₂ : crun w fail₂ x₂ ops = some y₂)
+    (t : MemType) (j : Int) (b : β) (hb : arun w (fun _ _ => none) ops t j = some b) :
+    rbyte y₁.2 y₁.1 t j = b ∧ rbyte y₂.2 y₂.1 t j = b := by
+  have e₁ : Sim w (fun _ _ => (none : Option β)) x₁.1 x₁.2 := by intro t j b h; simp at h
+  have e₂ : Sim w (fun _ _ => (none : Option β)) x₂.1 x₂.2 := by intro t j b h; simp at h
+  obtain ⟨_, s₁⟩ := refine_run w hw hld fail₁ ops _ x₁ y₁ hg₁ e₁ h₁
+  obtain ⟨_, s₂⟩ := refine_run w hw hld fail₂ ops _ x₂ y₂ hg₂ e₂ h₂
+  exact ⟨(s₁ t j b hb).2.2, (s₂ t j b hb).2.2⟩
+
+/-! ### Non-vacuity: the hypotheses are satisfiable -/
+
+/-- a concrete configuration: 2x2 matrix with 4 entries, fill estimate 4, `lwork = 1000` -/
+def cfgEx : Cfg := { m := 2, n := 2, annz := 4, panel := 1, maxsuper := 1, rowblk := 1, fill := 4, lwork := 1000 }
+
+/-- what `LUMemInit` leaves for it satisfies `GoodInv` -/
+example : GoodInv cfgEx.w (memInit_fixed (fun _ => false) cfgEx).st :=
+  Or.inl (memInit_fixed_inv (fun _ => false) cfgEx ⟨rfl, ⟨1, rfl⟩, ⟨2, rfl⟩, by decide, by decide⟩ (by decide)
+    (by decide) (by decide) (by decide) (by decide) (by decide) (by decide))
 
 end Slu.Mem
